@@ -82,6 +82,29 @@ CHECKS = {
             "Blocking.tla (exact integer arithmetic on base-2^15 limbs): exhaustive T,B grids plus sampled tuples up to 2^32-1 incl. N >= 2^31; "
             "BlockingModel.tla model-checks the definition itself.",
             "Sampling beyond the exhaustive grid.", "TLC trace validation (BlockingTrace) + TLC model (BlockingModel)", "5/C20"),
+    "C12": (MC, "Self-composition on recorded traces: random groups of 2-8 sessions (all codecs, equal or different parameters, encoders and "
+            "decoders, callbacks) are run with their calls interleaved and, separately, each session alone in a fresh process; IndepTrace.tla "
+            "requires every per-session observation (statuses, completion, decoded vectors and pointer classes, built repair symbols, callback "
+            "log, parity-check equations, per-session ledger) to be equal line by line; the interleaved run is also validated by ApiTrace and "
+            "PchkTrace. SessionsModel.tla model-checks the design-level dependence on the global PRNG state over all interleavings of three "
+            "sessions: independent given that only in-range seeds are accepted (C09).",
+            "Single thread, as the property states; library globals observed only through session results.",
+            "TLC model checking (SessionsModel) + TLC trace self-composition (IndepTrace) + ApiTrace/PchkTrace", "5/C12"),
+    "C13": (MC, "Kernels.tla defines each kernel byte-wise and the spec-defined operand contents; kernel_driver runs the seven kernels of the real "
+            "code over sizes x operand counts x alignment offsets x field constants on exact-size (ASan) and guard-byte buffers; KernelTrace.tla "
+            "recomputes every expected output and guard byte and checks the completeness of the enumerated case space.",
+            "Two spec-defined content patterns instead of all contents (every table entry is covered by C14).",
+            "TLC trace validation of kernel runs (KernelTrace) against the byte-wise definition (Kernels.tla)", "5/C13"),
+    "C14": (MC, "dump_tables records every entry of the 13 field tables (static GF(2^4)/GF(2^8) tables and codec 1's generated ones); TableTrace.tla "
+            "compares each with arithmetic defined from the primitive polynomials (GF2m!MulDef, powers of x) and checks in the same run that the "
+            "derived exp/log product equals MulDef for all pairs. Finite domain, enumerated completely.",
+            "Entries at indices beyond the field (doubled tables) are reported as DRIFT only.",
+            "TLC evaluation of the field definition over a complete table dump (TableTrace)", "5/C14"),
+    "C16": (MC, "For every (k, n-k) with k<=16, n<=24 the codec accepts (probed), ApiTrace checks Pchk2D!IsProductCode on the session's equations, "
+            "every built repair symbol against its check, and decoding histories (every single loss, all subsets for small n, bounded-loss and "
+            "random patterns otherwise, both APIs, callbacks, release at every point) against peeling closure / GF(2) solvability, soundness and the ledger.",
+            "Equations read from the control block after of_set_fec_parameters; n>16 sampled rather than all 2^n.",
+            "TLC trace validation (ApiTrace + Pchk2D)", "5/C16"),
     "C15": (MC, "For every recorded LDPC session TLC evaluates, on the session's own equations, whether the sum of all "
             "equations isolates the last repair symbol; a claim (OF_CRTL_LDPC_STAIRCASE_IS_LAST_SYMBOL_NULL) must imply "
             "it and must agree between encoder and decoder sessions of equal parameters. The LastNull lemma of the "
